@@ -153,3 +153,39 @@ have -> : \prod_(i < n) L i i = \prod_(i < n) c i by apply: eq_bigr => i _; rewr
 by rewrite lgM ?lg_prod //; apply: prodr_gt0 => i _; exact: pos.
 Qed.
 End LogDet.
+
+(* uniqueness of the lower-triangular factor with positive diagonal: samples and whitened residuals do not depend on the solver *)
+Section CholUnique.
+Variables (R : rcfType) (n : nat).
+Implicit Types L : 'M[R]_n.
+Definition lower_pos L := (forall i j : 'I_n, (i < j)%N -> L i j = 0) /\ (forall i : 'I_n, 0 < L i i).
+
+(* (L L^T)_ij for j <= i only involves columns k <= j *)
+Lemma LLt_entry_trig L (i j : 'I_n) : (forall a b : 'I_n, (a < b)%N -> L a b = 0) -> (j <= i)%N ->
+  (L *m L^T) i j = \sum_(k < n | (k < j)%N) L i k * L j k + L i j * L j j.
+Proof.
+move=> tr ji; rewrite mxE (bigID (fun k : 'I_n => (k < j)%N)) /=; congr (_ + _).
+  by apply: eq_bigr => k _; rewrite mxE.
+rewrite (bigD1 j) /= ?ltnn // mxE big1 ?addr0 // => k /andP[nlt ne].
+rewrite mxE (tr j k) ?mulr0 //.
+by rewrite ltn_neqAle eq_sym ne /= leqNgt.
+Qed.
+
+Theorem chol_unique L1 L2 : lower_pos L1 -> lower_pos L2 -> L1 *m L1^T = L2 *m L2^T -> L1 = L2.
+Proof.
+move=> [t1 p1] [t2 p2] e.
+have col : forall m, forall (i j : 'I_n), (j < m)%N -> L1 i j = L2 i j.
+  elim=> [|m IH] i j //; rewrite ltnS leq_eqVlt => /orP[/eqP jm|]; last exact: IH.
+  have prev (a b : 'I_n) : (b < j)%N -> L1 a b = L2 a b by move=> bj; apply: IH; rewrite -jm.
+  (* the diagonal entry of column j *)
+  have djj : L1 j j = L2 j j.
+    have := congr1 (fun M : 'M_n => M j j) e; rewrite /= !LLt_entry_trig //.
+    rewrite (eq_bigr (fun k : 'I_n => L2 j k * L2 j k)); last by move=> k kj; rewrite !prev.
+    move/addrI => sqe; apply/eqP; rewrite -(eqr_expn2 (n:=2)) ?ltW // !expr2; exact/eqP.
+  case: (leqP j i) => [ji|ij]; last by rewrite t1 // t2.
+  have := congr1 (fun M : 'M_n => M i j) e; rewrite /= !LLt_entry_trig //.
+  rewrite (eq_bigr (fun k : 'I_n => L2 i k * L2 j k)); last by move=> k kj; rewrite !prev.
+  move/addrI; rewrite djj => /mulIf -> //; by rewrite gt_eqF.
+by apply/matrixP => i j; exact: (col n).
+Qed.
+End CholUnique.
